@@ -14,7 +14,9 @@ formats of the CSV / GPX writers print it exactly on that lattice; `str(float)` 
 the shortest round-trip decimal of ANY finite double — positionally or, below `1e-4` and from `1e16`, in exponent notation
 (`reprFloat`) — and `float()` reads both (`parseDec?`, with an exponent part). That contract (`format`'s rounding of off-lattice
 values, `repr`'s choice of the shortest digits, `float()`'s correctly rounded conversion) is exercised by the correspondence
-check, not proved. -/
+check, not proved. Every file-level theorem is over lists of ANY length; `csv_file_lines` and the `…_same_number_same_order`
+theorems say so in the words of the statement (one physical line per observation; same number, same order), with examples at 5000
+observations / vertices. -/
 namespace TV.C13
 open TV.TextIO TV.ObsTime
 
@@ -112,6 +114,85 @@ theorem csv_file_roundtrip_matching (f : CsvFmt) (geo : Bool) (pf : List Tok) (h
       readCsv f pf h text = .ok (rows.map (fun ra => expRow f geo pf ra.1)) := by
   obtain ⟨text, hw, hr⟩ := csv_file_roundtrip f geo pf h naf rows srid names hv hsep hnl htime hrows hafs hh
   exact ⟨text, hw, hr h (by split <;> omega)⟩
+
+/-- **T2 (file, text level, any length)** `csv_file_lines`: under the hypotheses of `csv_file_roundtrip` the text
+`writeToFile` produces for a track of ANY number of observations is made of physical lines, each terminated by its own
+end-of-line character — the header block `hdr` (none for `h = 0`, three comment lines otherwise) followed by exactly one
+line per observation, in order (`rowLine`), none of which contains an end-of-line character. Read line by line
+(`readline()`, `fileLines`) the file gives these lines back: `header lines + number of observations` of them. (This is
+what a writer that gathers its lines by blocks and forgets the line break between two blocks violates from the first
+full block on: two observations on one physical line.) -/
+theorem csv_file_lines (f : CsvFmt) (geo : Bool) (pf : List Tok) (h naf : Nat) (rows : List (Row × List AFVal))
+    (srid : Str) (names : List Str)
+    (hv : ValidIds f) (hsep : numChar f.sep = false) (hnl : f.sep ≠ '\n') (htime : f.idT ≠ -1 → TimeOK pf f.sep)
+    (hrows : ∀ ra ∈ rows, RowOK f geo pf ra.1) (hafs : ∀ ra ∈ rows, ∀ v ∈ ra.2, AFOK f.sep v) (hh : HdrOK srid names) :
+    ∃ text hdr, writeToFile f geo pf h naf rows srid names = .ok text ∧
+      hdr.length = (if h = 0 then 0 else 3) ∧
+      text = ((hdr ++ rows.map (fun ra => rowLine f geo pf ra.1 ra.2)).map (· ++ ['\n'])).flatten ∧
+      (∀ l ∈ hdr ++ rows.map (fun ra => rowLine f geo pf ra.1 ra.2), '\n' ∉ l) ∧
+      fileLines text = hdr ++ rows.map (fun ra => rowLine f geo pf ra.1 ra.2) ∧
+      (fileLines text).length = (if h = 0 then 0 else 3) + rows.length := by
+  obtain ⟨hdr, hlen, hl, hw⟩ := TV.TextIO.writeToFile_eq f geo pf h naf rows srid names hv hsep hnl htime hrows hafs hh
+  have hno : ∀ l ∈ hdr ++ rows.map (fun ra => rowLine f geo pf ra.1 ra.2), '\n' ∉ l := by
+    intro l hm
+    simp only [List.mem_append, List.mem_map] at hm
+    rcases hm with hm | ⟨ra, hra, rfl⟩
+    · exact (hl l hm).1
+    · have hr := hrows ra hra
+      exact (row_roundtrip_line f geo pf naf ra.1 ra.2 hv hsep hnl (fun ht => ⟨htime ht, hr.1 ht⟩) hr.2 (hafs ra hra)).2.1
+  have hfl := fileLines_flatten _ hno
+  refine ⟨_, hdr, hw, hlen, rfl, hno, hfl, ?_⟩
+  rw [hfl, List.length_append, List.length_map, hlen]
+
+/-- **T2 (file, any length)** `csv_file_same_number_same_order`: the statement of the property in its own words — "the same
+number of observations in the same order" — for a track of ANY number of observations: the track read back has as many
+observations as the track written, and its `i`-th observation is the `i`-th observation written (`expRow`), for every
+`i`, with every reader header count up to the number of header lines written. -/
+theorem csv_file_same_number_same_order (f : CsvFmt) (geo : Bool) (pf : List Tok) (h naf : Nat) (rows : List (Row × List AFVal))
+    (srid : Str) (names : List Str)
+    (hv : ValidIds f) (hsep : numChar f.sep = false) (hnl : f.sep ≠ '\n') (htime : f.idT ≠ -1 → TimeOK pf f.sep)
+    (hrows : ∀ ra ∈ rows, RowOK f geo pf ra.1) (hafs : ∀ ra ∈ rows, ∀ v ∈ ra.2, AFOK f.sep v) (hh : HdrOK srid names) :
+    ∃ text, writeToFile f geo pf h naf rows srid names = .ok text ∧
+      ∀ hr, hr ≤ (if h = 0 then 0 else 3) → ∃ back, readCsv f pf hr text = .ok back ∧ back.length = rows.length ∧
+        ∀ i (hi : i < rows.length), back[i]? = some (expRow f geo pf rows[i].1) := by
+  obtain ⟨text, hw, hr⟩ := csv_file_roundtrip f geo pf h naf rows srid names hv hsep hnl htime hrows hafs hh
+  refine ⟨text, hw, fun k hk => ⟨_, hr k hk, by simp, ?_⟩⟩
+  intro i hi
+  simp [List.getElem?_map, List.getElem?_eq_getElem hi]
+
+/-- the hypotheses are satisfiable by a long track: 5000 observations (more than two blocks of 2048 lines) with a negative
+coordinate, a coordinate beyond 1e6 and a leap-day timestamp one second before midnight; the file has 5000 lines and 5000
+observations are read back, the last one being the observation written -/
+example : ∃ text, writeToFile ⟨0, 1, 2, 3, ','⟩ false (tokenize "2D/2M/4Y 2h:2m:2s".toList) 0 0
+      (List.replicate 5000 (⟨⟨true, 1500⟩, ⟨false, 1000000123⟩, ⟨false, 0⟩, ⟨⟨2024, 2, 29, 23, 59, 59⟩, 0⟩⟩, [])) = .ok text ∧
+    (fileLines text).length = 5000 ∧
+    ∃ back, readCsv ⟨0, 1, 2, 3, ','⟩ (tokenize "2D/2M/4Y 2h:2m:2s".toList) 0 text = .ok back ∧ back.length = 5000 ∧
+      back[4999]? = some ⟨(-1500, 3), (1000000123, 3), (0, 3), ⟨⟨2024, 2, 29, 23, 59, 59⟩, 0⟩⟩ := by
+  have hv : ValidIds ⟨0, 1, 2, 3, ','⟩ := by decide
+  have ht : TimeOK (tokenize "2D/2M/4Y 2h:2m:2s".toList) ',' := timeOK_of_b _ _ (by decide)
+  have hrow : RowOK ⟨0, 1, 2, 3, ','⟩ false (tokenize "2D/2M/4Y 2h:2m:2s".toList)
+      ⟨⟨true, 1500⟩, ⟨false, 1000000123⟩, ⟨false, 0⟩, ⟨⟨2024, 2, 29, 23, 59, 59⟩, 0⟩⟩ :=
+    ⟨fun _ => by unfold Fits; decide, by decide +kernel, by decide +kernel⟩
+  have hrows : ∀ ra ∈ List.replicate 5000 ((⟨⟨true, 1500⟩, ⟨false, 1000000123⟩, ⟨false, 0⟩, ⟨⟨2024, 2, 29, 23, 59, 59⟩, 0⟩⟩ : Row), ([] : List AFVal)),
+      RowOK ⟨0, 1, 2, 3, ','⟩ false (tokenize "2D/2M/4Y 2h:2m:2s".toList) ra.1 := by
+    intro ra hra; rw [List.eq_of_mem_replicate hra]; exact hrow
+  have hafs : ∀ ra ∈ List.replicate 5000 ((⟨⟨true, 1500⟩, ⟨false, 1000000123⟩, ⟨false, 0⟩, ⟨⟨2024, 2, 29, 23, 59, 59⟩, 0⟩⟩ : Row), ([] : List AFVal)),
+      ∀ v ∈ ra.2, AFOK ',' v := by
+    intro ra hra v hv'; rw [List.eq_of_mem_replicate hra] at hv'; simp at hv'
+  have hh : HdrOK "ENU".toList [] := by unfold HdrOK; decide
+  obtain ⟨text, hdr, hw, hlen, _, _, _, hn⟩ := csv_file_lines ⟨0, 1, 2, 3, ','⟩ false _ 0 0 _ "ENU".toList [] hv (by decide) (by decide)
+    (fun _ => ht) hrows hafs hh
+  obtain ⟨text', hw', hb⟩ := csv_file_same_number_same_order ⟨0, 1, 2, 3, ','⟩ false _ 0 0 _ "ENU".toList [] hv (by decide) (by decide)
+    (fun _ => ht) hrows hafs hh
+  obtain ⟨back, hr, hl, hi⟩ := hb 0 (Nat.le_refl 0)
+  have htt : text' = text := by rw [hw] at hw'; exact (Except.ok.inj hw').symm
+  subst htt
+  rw [List.length_replicate] at hn hl
+  refine ⟨text', hw, hn, back, hr, hl, ?_⟩
+  have h49 : 4999 < (List.replicate 5000 ((⟨⟨true, 1500⟩, ⟨false, 1000000123⟩, ⟨false, 0⟩, ⟨⟨2024, 2, 29, 23, 59, 59⟩, 0⟩⟩ : Row), ([] : List AFVal))).length := by
+    rw [List.length_replicate]; omega
+  rw [hi 4999 h49, List.getElem_replicate]
+  decide +kernel
 
 /-- reader side of the header option: a file made of `header` first lines of any content, any number of comment
 lines (`#…`) and then the data lines is read with `h=header` as exactly the observations. The header block of
@@ -458,6 +539,43 @@ theorem net_file_roundtrip (sep : Char) (hs : SepOK sep) (d : Nat) (es : List NE
     netRead ⟨0, 1, 2, 3, 4, sep, 1⟩ (netWrite sep 1 d es) = .ok (es.map (expEdge d))
     ∧ netRead ⟨0, 1, 2, 3, 4, sep, 0⟩ (netWrite sep 0 d es) = .ok (es.map (expEdge d)) :=
   TV.TextIO.net_file_roundtrip sep hs d es he
+
+/-! ### the other formats, in the words of the statement: same number, same order, for any length -/
+
+/-- a list read back as `l.map g` has the length of `l` and `g (l[i])` at every rank `i` -/
+theorem map_same_number_same_order {α β : Type} (g : α → β) (l : List α) :
+    (l.map g).length = l.length ∧ ∀ i (hi : i < l.length), (l.map g)[i]? = some (g l[i]) :=
+  ⟨List.length_map .., fun i hi => by simp [List.getElem?_map, List.getElem?_eq_getElem hi]⟩
+
+/-- **GPX, any length** `gpx_same_number_same_order`: a GPX track of ANY number of points is read back as one track with
+the same number of points, the `i`-th point read being the `i`-th point written (`expG`). -/
+theorem gpx_same_number_same_order (rf : List Tok) (hrf : ReadsIso rf) (geo : Bool) (name : Str)
+    (hname : '<' ∉ name ∧ '\n' ∉ name) (rows : List GRow) (hrows : ∀ r ∈ rows, Fits r.t) :
+    ∃ back, readGpx rf geo (gpxBody name rows) = .ok [back] ∧ back.length = rows.length ∧
+      ∀ i (hi : i < rows.length), back[i]? = some (expG rf geo rows[i]) :=
+  ⟨_, gpx_file_roundtrip rf hrf geo name hname rows hrows, map_same_number_same_order _ rows⟩
+
+/-- **network, any size** `net_same_number_same_order`: a network of ANY number of edges, each with ANY number of vertices,
+written with / without its header line and read with the matching header count: the same number of edges, the `i`-th edge
+read being the `i`-th edge written (`expEdge`: ids, end nodes, orientation, every vertex). -/
+theorem net_same_number_same_order (sep : Char) (hs : SepOK sep) (d : Nat) (es : List NEdge) (he : ∀ e ∈ es, EdgeOK sep e) :
+    ∃ back, netRead ⟨0, 1, 2, 3, 4, sep, 1⟩ (netWrite sep 1 d es) = .ok back ∧
+      netRead ⟨0, 1, 2, 3, 4, sep, 0⟩ (netWrite sep 0 d es) = .ok back ∧ back.length = es.length ∧
+      ∀ i (hi : i < es.length), back[i]? = some (expEdge d es[i]) :=
+  ⟨_, (net_file_roundtrip sep hs d es he).1, (net_file_roundtrip sep hs d es he).2, map_same_number_same_order _ es⟩
+
+/-- **WKT, any length** `wkt_same_number_same_order`: a track of ANY (non-zero) number of vertices exported by `toWKT` is
+parsed back as the same number of vertices, the `i`-th vertex parsed being the `i`-th vertex exported (`expVertex`). -/
+theorem wkt_same_number_same_order (d : Nat) (pts : List Pt) (hne : pts ≠ []) :
+    ∃ back, parseWkt (toWKT d pts) = .ok back ∧ back.length = pts.length ∧
+      ∀ i (hi : i < pts.length), back[i]? = some (expVertex d pts[i]) :=
+  ⟨_, wkt_roundtrip d pts hne, map_same_number_same_order _ pts⟩
+
+/-- non-vacuity at size: a chain of 3000 vertices / a WKT text of 5000 vertices satisfy the hypotheses -/
+example : ∃ back, parseWkt (toWKT 3 (List.replicate 5000 (⟨true, 1500⟩, ⟨false, 1000000123⟩))) = .ok back ∧ back.length = 5000 := by
+  obtain ⟨back, h, hl, _⟩ := wkt_same_number_same_order 3 (List.replicate 5000 (⟨true, 1500⟩, ⟨false, 1000000123⟩))
+    (by intro h; have := congrArg List.length h; rw [List.length_replicate] at this; exact absurd this (by decide))
+  exact ⟨back, h, by rw [hl, List.length_replicate]⟩
 
 /-! ### non-vacuity and the documented preconditions -/
 
